@@ -27,6 +27,7 @@ func TestC10NeverWedges(t *testing.T) {
 		state := rapid.SampledFrom([]string{"parked-in-read", "holding-qos1", "holding-qos2", "holding-big", "own-ack-write-parked",
 			"pubrel-write-parked", "dialing", "handshake", "resending", "foreign-writer-parked", "foreign-writer-parked", "skipping-dup-big", "holding-big-tail-outstanding", "connack-arrives-under-slow-save"}).Draw(rt, "readerState")
 		h.Act("reader state %s", state)
+		h.label("reader-state:" + state)
 		var pending []*sim.Call
 		silentHandshake := false
 		switch state {
@@ -171,6 +172,7 @@ func TestC10NeverWedges(t *testing.T) {
 
 		// --- the failure ---
 		h.Act("failure %s", failure)
+		h.label("failure:" + failure)
 		c := h.Current()
 		foreign := false
 		switch failure {
